@@ -7,6 +7,7 @@ package engines
 // configuration the library produced.
 
 import (
+	"context"
 	"crypto/ed25519"
 	"crypto/tls"
 	"encoding/json"
@@ -43,6 +44,10 @@ type metaCase struct {
 	Skip     bool   `json:"skip_flag,omitempty"`
 	Seed     int64  `json:"seed"`
 	PrefPos  string `json:"certificate_preference_position,omitempty"` // last (as the library builds it) | first | middle | then-appended
+	// OwnFn: the listener is configured with the application's own certificate-generation function (the
+	// multi-hop hook): it authenticates the node's nonce with the library's function but does not look at the
+	// client state and returns none. Whatever state the request carried is then unverified.
+	OwnFn bool `json:"listener_uses_own_certificate_function,omitempty"`
 }
 
 func nestedState(depth int, rng *rand.Rand) map[string]any {
@@ -102,6 +107,9 @@ func makeExtras(kind string, rng *rand.Rand) []string {
 		return []string{"v1-nodee-", "v1-nodee-fetch-node-creds", "v1-nodee-authenticate-node", "v1-nodee-certificate-preferenc", "V1-NODEE-AUTHENTICATE-NODE-00-AAAA", "00-abc", "-"}
 	case "reserved":
 		return []string{"__AUTH__", "__UNAUTH__", "A"}
+	case "odd-bytes":
+		// entries are opaque byte strings: padding, case, control and non-ASCII bytes are reported as offered
+		return []string{"plain", " padded", "trailing\t", " v1-nodee-certificate-preference-lookalike", "MiXeD-Case", "nbsp\u00a0", "a\x00b", "\xff\xfe", "h2 ", "last"}
 	}
 	return nil
 }
@@ -127,6 +135,17 @@ type metaWorld struct {
 // valid chains and ClientConfigs produces two configurations), wrap[2] = the listener's own options carry a
 // WithState option (state the operator wants attached to nodes that get authorized through the listener): it is
 // configuration, not something a node sent, and must never show up as client state
+// metaStateBlindFn authenticates the nonce like the library's function and neither verifies nor returns state
+func metaStateBlindFn(ctx context.Context, st nodeenrollment.Storage, req *types.GenerateServerCertificatesRequest, opt ...nodeenrollment.Option) (*types.GenerateServerCertificatesResponse, error) {
+	bare := proto.Clone(req).(*types.GenerateServerCertificatesRequest)
+	bare.ClientState, bare.ClientStateSignature = nil, nil
+	resp, err := nodetls.GenerateServerCertificates(ctx, st, bare, opt...)
+	if resp != nil {
+		resp.ClientState = nil
+	}
+	return resp, err
+}
+
 func newMetaWorld(storage string, wrap ...bool) *metaWorld {
 	both := len(wrap) > 1 && wrap[1]
 	w := &metaWorld{s: world.MustServer(world.ServerCfg{Backend: storage, StorageWrap: len(wrap) > 0 && wrap[0], NoRoots: both})}
@@ -154,6 +173,9 @@ func newMetaWorld(storage string, wrap ...bool) *metaWorld {
 		lst, _ := structpb.NewStruct(map[string]any{"origin": "listener-configuration", "tier": 2})
 		cfg.Options = w.s.Opts(nodeenrollment.WithState(lst))
 	}
+	if len(wrap) > 3 && wrap[3] {
+		cfg.GenFn = metaStateBlindFn
+	}
 	w.lw, err = world.NewLW(w.s, cfg)
 	if err != nil {
 		panic(err)
@@ -170,7 +192,7 @@ func (w *metaWorld) runDials(c *engine.Ctx, seed int64) {
 	r := c.R
 	rng := rand.New(rand.NewSource(seed))
 	for _, sk := range []string{"absent", "empty", "flat", "nested", "lists", "8k", "30k"} {
-		for _, ek := range []string{"none", "one", "twenty"} {
+		for _, ek := range []string{"none", "one", "twenty", "odd-bytes"} {
 			state := makeState(sk, rng)
 			extras := makeExtras(ek, rng)
 			var opts []nodeenrollment.Option
@@ -332,6 +354,10 @@ func (w *metaWorld) run(c *engine.Ctx, mc metaCase) {
 			}
 		}
 	}
+	if mc.OwnFn {
+		// nobody verified the state of this connection: none may be delivered, whatever its signature says
+		mustNotDeliver = true
+	}
 	offered := append([]string{}, cfg.NextProtos...)
 	expected := stripPref(offered)
 
@@ -398,6 +424,10 @@ func (w *metaWorld) run(c *engine.Ctx, mc metaCase) {
 	}
 	gs := pc.ClientState()
 	switch {
+	case mustNotDeliver && gs != nil && len(gs.Fields) > 0 && mc.OwnFn:
+		r.Violation("unverified-state-delivered:own-function:"+orDefault(mc.StateSig, "honest"), "client state was delivered on a listener whose own certificate function neither verified nor returned any (state signature in the request: "+orDefault(mc.StateSig, "by the node")+")", mc)
+	case mustNotDeliver && mc.OwnFn:
+		r.Count("own_function:no_state_delivered:"+orDefault(mc.StateSig, "honest"), 1)
 	case mustNotDeliver && gs != nil && len(gs.Fields) > 0:
 		r.Violation("unverified-state-delivered:"+mc.StateSig, "client state was delivered although its signature does not verify under the authenticating record ("+mc.StateSig+")", mc)
 	case mustNotDeliver:
@@ -451,7 +481,7 @@ func runMeta(c *engine.Ctx) engine.Result {
 			_ = json.Unmarshal(c.Replay, &wrap)
 			mc = wrap.Case
 		}
-		w := newMetaWorld(orDefault(mc.Storage, world.Inmem))
+		w := newMetaWorld(orDefault(mc.Storage, world.Inmem), false, false, false, mc.OwnFn)
 		defer w.close()
 		w.run(c, mc)
 		return res
@@ -461,7 +491,7 @@ func runMeta(c *engine.Ctx) engine.Result {
 	reps := c.Pick(5, 60)
 	for rep := 0; rep < reps; rep++ {
 		for _, st := range []string{"absent", "empty", "flat", "nested", "lists", "8k", "30k"} {
-			for _, ex := range []string{"none", "one", "twenty", "duplicates", "lookalikes", "reserved"} {
+			for _, ex := range []string{"none", "one", "twenty", "duplicates", "lookalikes", "reserved", "odd-bytes"} {
 				for _, sto := range []string{world.Inmem, world.Ordered} {
 					cases = append(cases, metaCase{Kind: "honest", State: st, Extras: ex, Storage: sto, Seed: rng.Int63()})
 				}
@@ -518,6 +548,23 @@ func runMeta(c *engine.Ctx) engine.Result {
 	for i := 0; i < n; i++ {
 		<-done
 	}
+	// a listener with the application's own, state-blind certificate function
+	for _, sto := range []string{world.Inmem, world.Ordered} {
+		w := newMetaWorld(sto, false, false, false, true)
+		for rep := 0; rep < c.Pick(1, 6); rep++ {
+			for _, sig := range []string{"valid", "forged", "missing", "other-node"} {
+				for _, hint := range []bool{false, true} {
+					w.run(c, metaCase{Kind: "rogue", State: []string{"flat", "nested", "8k"}[(rep+len(sig))%3], Extras: "one", Storage: sto, Hint: hint, StateSig: sig, Seed: rng.Int63(), OwnFn: true})
+				}
+			}
+			for _, st := range []string{"absent", "flat", "30k"} {
+				w.run(c, metaCase{Kind: "honest", State: st, Extras: "one", Storage: sto, Seed: rng.Int63(), OwnFn: true})
+			}
+		}
+		w.close()
+	}
+	r.Require("own_function:no_state_delivered:forged", 2)
+	r.Require("own_function:no_state_delivered:honest", 2)
 	r.Require("authenticated_connections_inspected", 50)
 	r.Require("protocol_lists_equal", 1)
 	r.Require("states_equal:30k", 1)
